@@ -374,6 +374,40 @@ def constructor_modules():
     return out
 
 
+def lifetime_modules():
+    """Types with a lifetime parameter of their own (a borrowed field, and an INVARIANT one: Cell<&'a _>): the reference forms
+    borrow the struct for the duration of the conversion's own lifetime only - two mutable conversions in a row, a use
+    of the struct between and after them, and finally the owned conversion all compile and see the same objects."""
+    out = []
+    for forms in (["owned"], ["ref"], ["ref_mut"], ["owned", "ref"], ["ref", "ref_mut"], ["owned", "ref", "ref_mut"]):
+        for named in (False, True):
+            k = f"lifetimes|{'named' if named else 'tuple'}|{','.join(forms)}"
+            attr = f"#[into({', '.join(forms)})]"
+            body = "{ pub a: &'a P1, pub b: core::cell::Cell<&'a P2> }" if named else "(pub &'a P1, pub core::cell::Cell<&'a P2>);"
+            fa, fb = ("a", "b") if named else ("0", "1")
+            init = f"S {{ a: &p1, b: core::cell::Cell::new(&p2) }}" if named else "S(&p1, core::cell::Cell::new(&p2))"
+            rows, exp = [], []
+            if "ref" in forms:
+                rows.append(f'{{ let (x, y): (&&P1, &core::cell::Cell<&P2>) = (&s).into(); rows.push(format!("ref {{}} {{}}", ad(x) == ad(&s.{fa}), ad(y) == ad(&s.{fb}))); }}')
+                exp.append("ref true true")
+                rows.append(f's.{fb}.set(&p2b); rows.push(format!("after_ref {{}}", s.{fb}.get().0));')
+                exp.append("after_ref 22")
+            if "ref_mut" in forms:
+                rows.append(f'{{ let (x, _y): (&mut &P1, &mut core::cell::Cell<&P2>) = (&mut s).into(); *x = &p1b; }}')
+                rows.append(f'{{ let (_x, y): (&mut &P1, &mut core::cell::Cell<&P2>) = (&mut s).into(); y.set(&p2); }}')
+                rows.append(f'rows.push(format!("after_mut {{}} {{}}", s.{fa}.0, s.{fb}.get().0));')
+                exp.append("after_mut 11 2")
+            if "owned" in forms:
+                rows.append(f'{{ let (x, y): (&P1, core::cell::Cell<&P2>) = s.into(); rows.push(format!("owned {{}} {{}}", x.0, y.get().0)); }}')
+                exp.append("owned " + ("11" if "ref_mut" in forms else "1") + " " + ("2" if "ref_mut" in forms or "ref" not in forms else "22"))
+            mod = (f"use super::*;\n#[derive(derive_more::Into)]\n{attr}\npub struct S<'a>{' ' if named else ''}{body}\n"
+                   f"pub fn run() {{ let (p1, p1b, p2, p2b) = (P1(1), P1(11), P2(2), P2(22)); let _ = (&p1b, &p2b);\n"
+                   f"    #[allow(unused_mut)] let mut s = {init}; let mut rows: Vec<String> = vec![];\n    " + "\n    ".join(rows) +
+                   f"\n    report({json.dumps(k)}, &rows); }}")
+            out.append((k, mod, exp, mod))
+    return out
+
+
 def run(chk, tier, seed, replay):
     chk.assumptions += ["all fields of one variant/struct share one tagged type (a permutation would still compile); values 1..n",
                         "typed / forwarded conversions go through instrumented From impls counting their calls"]
@@ -404,7 +438,7 @@ def run(chk, tier, seed, replay):
             mods.append((k, m))
             exps[k] = (e, d)
     chk.notes["into_attr_cases"] = {"model": len(into2), "compiled": len(sel)}
-    for k, m, e, d in constructor_modules():
+    for k, m, e, d in constructor_modules() + lifetime_modules():
         mods.append((k, m))
         exps[k] = (e, d)
     if replay:
